@@ -7,7 +7,8 @@ from vlib.pool import Pool, NCPU
 from . import common
 
 PID = "C11"
-PUBLIC = ["outcome_type", "statements", "source", "target", "intermediate", "column_paths", "cyto_table", "cyto_column", "summary"]
+PUBLIC = ["outcome_type", "statements", "source", "target", "intermediate", "column_paths", "cyto_table", "cyto_column", "summary",
+          "column_paths_incl_subquery", "column_paths_no_subquery_columns"]
 RULE = ("case = (script, dialect, metadata) from the harvested corpus, TPC-DS and order-sensitive generated scripts; each is run in worker processes "
         "started with different PYTHONHASHSEED, twice in the same process, and with accessors called in a seeded permutation with repeats; "
         "the canonical public records (anonymous subquery names and export edge ids neutralised) must be equal; non-trivial = analysis returned a result in the reference process")
@@ -51,6 +52,14 @@ def diff_fields(a, b):
     return [k for k in PUBLIC if a.get(k) != b.get(k)]
 
 
+def _all_acc(cases):
+    from vlib.observe import ALL_ACCESSORS
+
+    for c in cases:
+        c.setdefault("order", list(ALL_ACCESSORS))
+    return cases
+
+
 def workload(tier, rnd):
     cases = common.corpus_cases(tier, want=())
     if tier == "quick":
@@ -74,7 +83,7 @@ def workload(tier, rnd):
         c = dict(e)
         c.update({"silent": False, "want": [], "src": "extra"})
         cases.append(c)
-    return cases
+    return _all_acc(cases)
 
 
 def run(tier):
@@ -108,7 +117,7 @@ def run(tier):
                 rep = p0.map("vlib.observe:run_case", cases, timeout=180)
                 perm_cases = []
                 for c in cases:
-                    order = list(__import__("vlib.observe", fromlist=["ACCESSORS"]).ACCESSORS)
+                    order = list(__import__("vlib.observe", fromlist=["ALL_ACCESSORS"]).ALL_ACCESSORS)
                     rnd.shuffle(order)
                     order = order + [rnd.choice(order) for _ in range(rnd.randint(1, 4))]
                     rnd.shuffle(order)
